@@ -494,6 +494,35 @@ MUTANTS = [
          what="the SQL parser's recursion limit is raised",
          old='''        match Parser::parse_sql(&PostgreSqlDialect {}, &query) {''',
          new='''        match Parser::new(&PostgreSqlDialect {}).with_recursion_limit(512).try_with_sql(&query).and_then(|mut p| p.parse_statements()) {'''),
+    dict(id="c05-last-parse-wins", prop="C05", file="src/client.rs", expect="C05-R7",
+         what="D22 again: the role is inferred anew at every buffered Parse",
+         old='''                                    let _ = query_router
+                                        .infer_for_batch(&ast, earlier_parse_in_batch);''',
+         new='''                                    let _ = earlier_parse_in_batch;
+                                    let _ = query_router.infer(&ast);'''),
+    dict(id="c05-batch-primary-not-restored", prop="C05", file="src/query_router.rs", expect="C05-R7",
+         what="infer_for_batch no longer re-establishes the earlier primary decision",
+         old='''        if primary_needed_so_far && self.pool_settings.query_parser_read_write_splitting {
+            self.active_role = Some(Role::Primary);
+        }
+''', new='''        if primary_needed_so_far && self.pool_settings.query_parser_read_write_splitting {
+            debug!("An earlier Parse of this batch needs the primary");
+        }
+'''),
+    dict(id="c06-bind-non-key-not-skipped", prop="C06", file="src/query_router.rs", expect="C06-R5",
+         what="D23 again: parameters that are not the key are not stepped over",
+         old='''            } else {
+                // Not a sharding key, the next parameter starts after it.
+                message_cursor.advance(len);
+            }''', new='''            }'''),
+    dict(id="c06-placeholder-without-found", prop="C06", file="src/query_router.rs", expect="C06-R5",
+         what="D24 again: every placeholder on the right of a comparison is a sharding key placeholder",
+         old='''                Expr::Value(Value::Placeholder(placeholder)) => {
+                    if found {''', new='''                Expr::Value(Value::Placeholder(placeholder)) => {
+                    if found || true {'''),
+    dict(id="c06-binary-unsigned", prop="C06", file="src/query_router.rs", expect="C06-R5",
+         what="binary int4 key decoded without its sign",
+         old='''                        4 => message_cursor.get_i32() as i64,''', new='''                        4 => message_cursor.get_u32() as i64,'''),
     # ------------------------------------------------------------------ C12
     dict(id="c12-raw-value", prop="C12", file="src/server.rs", expect="C12-R2",
          what="value interpolated without escaping again",
